@@ -254,6 +254,7 @@ CURATED = {
     "orthoroot": "O(C(l,l),R(l,l),l)",
     "mixed14": "R(l,O(l,R(l,l),l,C(l,l)),C(l,l),l)",
     "nestsel": "C(S(C(l,l),R(l,l)),l)",
+    "widesel": "C(S(l,C(l,l),R(l,l),l),l)",
     "nestutil": "C(U(C(l,l),l),N(R(l,l),l))",
     "headless": "c(c(l,l),o(l,r(l,l)),l)",
     "ortho89": "C(O(l,l,l,l,l,l,l,C(l,l)),O(l,l,l,l,l,l,l,l,R(l,l)),l)",
